@@ -8,7 +8,7 @@ for d in seeded/C*/; do
   rc=$(tools/try_patch.sh $d/patch.diff $p 2>&1 | grep -E "^== " | sed 's/.*rc=//')
   echo "$id $p rc=$rc" | tee -a $out
 done
-declare -A own=( [m01]=C05 [m02]=C05 [m04]=C12 [m05]=C13 [m06]=C13 [m07]=C14 [m08]=C14 [m09]=C15 [m10]=C18 [m11]=C20 [m12]=C20 [m13]=C20 [m14]=C20 [m15]=C18 )
+declare -A own=( [m01]=C05 [m02]=C05 [m04]=C12 [m05]=C13 [m06]=C13 [m07]=C14 [m08]=C14 [m09]=C15 [m10]=C18 [m11]=C20 [m12]=C20 [m13]=C20 [m14]=C20 [m15]=C18 [m16]=C20 )
 for f in seeded/own/*.diff; do
   n=$(basename $f); k=${n:0:3}; p=${own[$k]}
   rc=$(tools/try_patch.sh $f $p 2>&1 | grep -E "^== " | sed 's/.*rc=//')
